@@ -1014,6 +1014,22 @@ def c16_check(prop, tier, seed, replay):
 
     if replay:
         pl = json.load(open(replay))
+        if pl.get("kind") == "live-aggregation":
+            scs_ = pl["scenario"] if isinstance(pl["scenario"], list) else [pl["scenario"]]
+            for k in range(5):
+                path = os.path.join(d, f"sc_replay{k}.ndjson")
+                with open(path, "w") as f:
+                    f.write(json.dumps({"hdr": True, "meaning": {}}) + "\n")
+                    for s_ in scs_:
+                        f.write(json.dumps(s_) + "\n")
+                raw, tr = os.path.join(d, f"raw_replay{k}.ndjson"), os.path.join(d, f"tr_replay{k}.ndjson")
+                vlib.run_harness(["sock-run", path, raw, os.path.join(d, "sock")], timeout=900)
+                sess.postprocess(raw, tr)
+                r = sess.validate(d, tr, vlib.known_flags(), 900)
+                if r["status"] == "violation":
+                    violations.append({"replay": replay, "what": str(r.get("detail"))[:400]})
+                    break
+            return {"known": {}, "violations": violations}
         ok, why, _ = run([pl["schedule"]], "replay")
         if not ok:
             violations.append({"replay": replay, "what": why})
@@ -1043,15 +1059,50 @@ def c16_check(prop, tier, seed, replay):
             p = vlib.save_replay(prop, f"sched_{len(violations)}", {"property": prop, "kind": "aggregator-schedule", "schedule": ops, "why": why2})
             violations.append({"replay": p, "what": why2})
     log(f"[{prop}] {len(scs)} schedules on the real PStateAggregator (paused clock), {nrec} records validated, {time.time()-t2:.0f}s")
+    # aggregated subscriptions on live sessions (the wiring in the protocol handler: snapshot first, then the
+    # aggregator): what the subscriber receives must be, key by key, what the specification delivered
+    t3 = time.time()
+    known = vlib.known_flags()
+    lscs = sess.gen_c16_live(rnd, tier)
+    nlive = 0
+
+    def run_live(ib):
+        i, part = ib
+        path = os.path.join(d, f"sc_live{i}.ndjson")
+        with open(path, "w") as f:
+            f.write(json.dumps({"hdr": True, "meaning": {}}) + "\n")
+            for s_ in part:
+                f.write(json.dumps(s_) + "\n")
+        raw = os.path.join(d, f"raw_live{i}.ndjson")
+        vlib.run_harness(["sock-run", path, raw, os.path.join(d, "sock")], timeout=1800)
+        tr = os.path.join(d, f"tr_live{i}.ndjson")
+        n = sess.postprocess(raw, tr)
+        r = sess.validate(d, tr, known, 900)
+        r["n"], r["scs"], r["trace"] = n, part, tr
+        return r
+    for i, r in enumerate(vlib.parallel(run_live, [(i, lscs[i::4]) for i in range(4) if lscs[i::4]])):
+        nlive += r["n"]
+        if r["status"] == "violation":
+            bad = None
+            for k, s_ in enumerate(r["scs"]):
+                r1 = run_live((f"{i}_{k}", [s_]))
+                if r1["status"] == "violation":
+                    bad = (s_, r1)
+                    break
+            p = vlib.save_replay(prop, f"live_{len(violations)}", {"property": prop, "kind": "live-aggregation", "scenario": bad[0] if bad else r["scs"],
+                                                                     "detail": (bad[1] if bad else r).get("detail")})
+            violations.append({"replay": p, "what": "what an aggregated subscription received on a live session is not, key by key, what the "
+                               "specification delivers to it: %s" % str((bad[1] if bad else r).get("detail", {}))[:400]})
+    log(f"[{prop}] {len(lscs)} live-session scenarios with aggregated subscriptions, {nlive} records, {time.time()-t3:.0f}s")
     cov = {"states": st["distinct"], "transitions": st["generated"], "traces_validated_against_impl": len(scs),
-           "samples": [scs[5], scs[-1]], "exhaustive": True, "trace_records_validated": nrec,
+           "samples": [scs[5], scs[-1], lscs[0]], "exhaustive": True, "trace_records_validated": nrec + nlive, "live_session_scenarios": len(lscs),
            "explanation": "TLC exhaustive on the aggregator step machine (content, delay and timer invariants) for all arrival sequences within "
                           "the bounds; the real PStateAggregator is driven on tokio's paused clock and every batch must be sent at exactly the "
                           "virtual time at which some behaviour of the specification sends it"}
     return {"coverage": cov, "known": {}, "violations": violations,
             "assumptions": ["virtual time (tokio paused clock), 1 ms steps; processing takes no virtual time",
                             "the client connection always takes the batches (channel never full)",
-                            "content on a live session (aggregated vs plain subscription over the socket) is not part of this check yet"]}
+                            "live sessions: content and order per key, one kind and no key twice per batch; the timing of the batches is checked on the aggregator alone"]}
 
 
 CHECKS["C16"] = c16_check
